@@ -115,6 +115,9 @@ func optVariants(w *W, r *rand.Rand, tree *Node, undefined bool, events int, wit
 			cfg.RegisterAlways = true
 		}
 		cfg.Events = events
+		if k := r.Intn(4); k >= 2 {
+			cfg.StrayOptimize = k - 1
+		}
 		if v, ok := compileVariant(w, tree, src, cfg, "options"); ok {
 			vs = append(vs, v)
 		}
